@@ -55,19 +55,17 @@ def impl(case):
                 nt = int(m.n_templates)
                 # the same queries after the assignments were changed in memory (no save): they
                 # must follow the array helpers on the CURRENT assignments
+                # (compared with the Lean model on the reversed assignment vector, second query)
                 new_sc = np.asarray(m.spike_clusters).copy()[::-1].copy()
                 m.spike_clusters = new_sc
-                inmem_ok = True
+                out2 = []
                 for c in case['cs']:
-                    exp = A._spikes_in_clusters(new_sc, [c])
-                    got = m.get_cluster_spikes(c)
-                    cnt = m.get_template_counts(c)
-                    exp_cnt = np.bincount(np.asarray(m.spike_templates)[exp], minlength=nt)
-                    if not (np.array_equal(got, exp) and np.array_equal(cnt, exp_cnt)):
-                        inmem_ok = False
+                    out2.append(dict(counts=[int(x) for x in m.get_template_counts(c)],
+                                     cluster_spikes=[int(x) for x in m.get_cluster_spikes(c)],
+                                     template_spikes=[int(x) for x in m.get_template_spikes(c)]))
             finally:
                 m.close()
-        return dict(res=out, nt=nt, inmem_ok=inmem_ok)
+        return dict(res=out, nt=nt, res_inmem=out2)
     raise ValueError(op)
 
 
@@ -75,6 +73,8 @@ def model_query(case, impl_res):
     q = {k: v for k, v in case.items() if not k.startswith('_') and k not in ('dtype', 'spec')}
     if case['op'] == 'spc':
         q['w'], q['signed'] = DT[case['dtype']]
+    if case['op'] == 'tcounts':
+        q['_second'] = dict(q, sc=case['sc'][::-1])
     return q
 
 
@@ -113,8 +113,10 @@ def judge(case, impl_res, ans):
             return 'MACHINERY: n_templates of the generated dataset'
         if ok['res'] != m:
             return 'SPEC: model query differs from the set-theoretic definition'
-        if ok.get('inmem_ok') is False:
-            return 'SPEC: model queries do not follow the array helpers after the assignments were changed in memory'
+        if 'err' in ans.get('second', {}):
+            return 'MACHINERY: driver error in the second query: %s' % ans['second']['err']
+        if ok['res_inmem'] != ans['second']['ok']['model']:
+            return 'SPEC: model queries do not follow the CURRENT assignments after they were changed in memory'
         return None
     if ok != m:
         return 'SPEC: helper output differs from its set-theoretic definition'
